@@ -22,5 +22,17 @@ func init() {
 			Expect: "drv.callers", Why: "the discarded first clock would be repeated by a second entry into generateKeystream"},
 		Mutant{Name: "c18-plmn-written-in-place", Prop: "C18", File: "uePolicyContainer/UePolicyContainer_UEPolicySectionManagementSubList.go", Old: "\tu.Mcc = &mcc\n\tu.Mnc = &mnc\n", New: "\tif u.Mcc == nil {\n\t\tu.Mcc, u.Mnc = new(int), new(int)\n\t}\n\t*u.Mcc, *u.Mnc = mcc, mnc\n",
 			Expect: "ptr.fresh-store", Why: "MCC/MNC overwritten in place: value copies of the sublist share the ints"},
+		Mutant{Name: "c15-flow-label-mask", Prop: "C15", File: "nasType/qos_rule.go", Old: "\tp.Label = uint32(b[0])<<16 | uint32(b[1])<<8 | uint32(b[2])", New: "\tp.Label = uint32(b[0]&0x03)<<16 | uint32(b[1])<<8 | uint32(b[2])",
+			Expect: "comp.roundtrip", Why: "labels of 2^18 and more serialise (below 2^19) but lose a bit on parse"},
+		Mutant{Name: "c15-skip-repeated-parameter", Prop: "C15", File: "nasType/qos_flow_desc.go", Old: "\tfor _, parameter := range *l {\n\t\tif err := binary.Write(buf, binary.BigEndian, parameter.Identifier()); err != nil {", New: "\tfor i, parameter := range *l {\n\t\tif i > 0 && (*l)[i-1].Identifier() == parameter.Identifier() {\n\t\t\tcontinue\n\t\t}\n\t\tif err := binary.Write(buf, binary.BigEndian, parameter.Identifier()); err != nil {",
+			Expect: "seq.all-items", Why: "a repeated parameter is counted but not written"},
+		Mutant{Name: "c09-dnn-root-label-stops", Prop: "C09", File: "nasType/NAS_DNN.go", Old: "\t\t\tfqdn += string(rfc1035Reader.Next(int(labelLen))) + \".\"", New: "\t\t\tif labelLen == 0 {\n\t\t\t\tbreak\n\t\t\t}\n\t\t\tfqdn += string(rfc1035Reader.Next(int(labelLen))) + \".\"",
+			Expect: "text.dnn", Why: "everything behind an empty label is dropped"},
+		Mutant{Name: "c18-sublist-runs-on", Prop: "C18", File: "uePolicyContainer/UePolicyContainer_UEPolicySectionManagementSubList.go", Old: "buf.Next(int(u.Len - 3))", New: "buf.Next(int(u.Len - 1))",
+			Expect: "walk.uepol", Why: "the sublist contents swallow two octets of the next sublist"},
+		Mutant{Name: "c13-ladn-tai-length-formula", Prop: "C13", File: "nasConvert/Ladn.go", Old: "\tladnNas = append(ladnNas, uint8(len(taiListNas)))", New: "\tladnNas = append(ladnNas, uint8(1+3+3*len(taiLists)))",
+			Expect: "lay.ladn", Why: "length right only for a TAI list of one PLMN"},
+		Mutant{Name: "c12-plmn-filler-boundary", Prop: "C12", File: "nasConvert/PlmnId.go", Old: "\tif plmnID[5] == 'f' {", New: "\tif nasBuf[1] > 0xf0 {",
+			Expect: "lay.plmn.text", Why: "the filler is kept when MCC digit 3 is 0"},
 	)
 }
